@@ -353,6 +353,9 @@ fn char_refs(doc: &str, a: usize, b: usize, push: &mut impl FnMut(&'static str, 
         if c.is_ascii_whitespace() {
             continue; // a blank may be a list separator; a reference would make it part of an item
         }
+        if c == '\0' {
+            continue; // there is no character reference for U+0000 (C10: `&#0;` must be an error)
+        }
         push("char -> decimal reference", p, splice(s, p, c.len_utf8(), format!("&#{};", c as u32).as_bytes()));
         push("char -> hex reference", p, splice(s, p, c.len_utf8(), format!("&#x{:X};", c as u32).as_bytes()));
     }
